@@ -190,6 +190,28 @@ def determinism_slice(mod, units):
     return len(units), outs[0] == outs[1], None
 
 
+def optimize_slice(mod, units):
+    """
+    Execute a slice of units under `python -O` (assert statements compiled away): library logic that
+    lives in assert statements disappears there.  Returns (violations, evaluations, error).
+    """
+    env = dict(os.environ)
+    env["PYTHONHASHSEED"] = "0"
+    env["VERIF_NO_REEXEC"] = "1"
+    env["VERIF_NPROC"] = "4"
+    proc = subprocess.run(
+        [sys.executable, "-O", os.path.join(core.VERIF_DIR, "dst.py"), "units", mod.PROPERTY],
+        input=json.dumps(units), capture_output=True, text=True, env=env, timeout=1200, check=False,
+    )
+    line = [l for l in proc.stdout.splitlines() if l.startswith("UNITVIOLATIONS ")]
+    if proc.returncode != 0 or not line:
+        return [], 0, f"python -O slice rc={proc.returncode}: {proc.stderr[-400:]}"
+    data = json.loads(line[0][15:])
+    for scn in data["violations"]:
+        scn["interpreter_flags"] = ["-O"]
+    return data["violations"], data["evaluations"], None
+
+
 def load_known():
     path = os.path.join(core.VERIF_DIR, "known_findings.json")
     if not os.path.exists(path):
@@ -297,6 +319,15 @@ def run_check(mod, tier, base_seed, budget_s=None, quiet=False):
             harness_error = harness_error or err
         elif not same:
             harness_error = harness_error or "determinism slice: per-unit digests differ between two fresh interpreters"
+    opt = None
+    if slice_units and not os.environ.get("VERIF_SKIP_DETERMINISM"):
+        o_viol, o_evals, err = optimize_slice(mod, slice_units[:DETERMINISM_UNITS])
+        opt = {"units": len(slice_units[:DETERMINISM_UNITS]), "evaluations": o_evals, "violations": len(o_viol)}
+        if err:
+            harness_error = harness_error or err
+        for scn in o_viol:
+            if signature(mod, scn) not in known_sigs:
+                total.violations.append(scn)
     wall = time.monotonic() - t0
 
     # ---- report violations: dedupe, write replay, confirm in a fresh interpreter
@@ -361,6 +392,7 @@ def run_check(mod, tier, base_seed, budget_s=None, quiet=False):
             "workers": NPROC,
             "seeds": {"VERIF_SEED": base_seed, "run_seed_formula": "VERIF_SEED * 100000007 + i", "scenarios": total.runs},
             "determinism_checked": det,
+            "python_O_slice": opt,
         },
         "assumptions": mod.ASSUMPTIONS,
         "wall_s": round(wall, 2),
